@@ -63,9 +63,16 @@ Fixpoint dict_find_from (i : N) (s : str) (d : list (str * list (N * N))) : opti
   | [] => None
   | (k, ch) :: r => if str_eqb s k then Some (i, ch) else dict_find_from (i + 1) s r
   end.
-Definition cell_of (i j : N) : N := 16 + 4 * i + j.
+(* "the same OperatorInfo" is pointer equality in the library.  The first alternative of an entry lives in the table
+   itself: one address per entry.  The further alternatives are `next: &Some(OperatorInfo{..})` constants, and the
+   compiler keeps ONE copy of equal constants: two entries whose remaining alternatives are equal (type, priority,
+   and what follows) share the address (observed: the prefix form of U+2796 IS PREFIX_MINUS).  So the cell of a
+   first alternative is its entry's index, the cell of a later one encodes the alternatives from there on. *)
+Fixpoint enc (ch : list (N * N)) : N :=
+  match ch with [] => 1 | (ty, pr) :: r => (enc r * 16 + ty) * 1024 + pr end.
+Definition cell_at (i j : N) (ch : list (N * N)) : N := if j =? 0 then 16 + 4 * i else 4294967296 + enc ch.
 Fixpoint chain_from (i j : N) (ch : list (N * N)) : list opinfo :=
-  match ch with [] => [] | (ty, pr) :: r => OI ty pr (cell_of i j) :: chain_from i (j + 1) r end.
+  match ch with [] => [] | (ty, pr) :: r => OI ty pr (cell_at i j ch) :: chain_from i (j + 1) r end.
 (* OPERATORS.get(text): the chain of alternatives, first one first *)
 Definition dict_get (s : str) : option (list opinfo) :=
   match dict_find_from 0 s opdict with None => None | Some (i, ch) => Some (chain_from i 0 ch) end.
